@@ -6,8 +6,10 @@ import ast
 from fdlstatic import cfg as cfg_lib
 from fdlstatic.ctx import Ctx
 from fdlstatic.model import AnalysisError, unparse, walk_function, walk_stmts
+from fdlstatic import roles
 from fdlstatic.report import RuleSet
 from fdlstatic.rules import c01
+from fdlstatic import roles
 from fdlstatic.report import RuleSet as _RS
 
 P = 'fiddle._src.partial'
@@ -49,6 +51,40 @@ EXPLANATION = (
     'composed partial layers for every signature; freshness of what the '
     'factories themselves return.')
 ASSUMPTIONS = ['functools.partial semantics (later keywords override)']
+
+
+def _mapped(g, n, expr, elem_ok):
+  """`expr`, evaluated at CFG node n, is an unfiltered comprehension (or
+  tuple(...) / list(...) of a generator) that applies `elem_ok(element
+  expression, element variable)` to every element of one source.  Returns
+  (source expression, node where it is evaluated, 'items' | 'elements') or
+  None.  Dict comprehensions must keep the key."""
+  e, at = roles.value_at(g, n, expr)
+  if isinstance(e, ast.Call) and isinstance(e.func, ast.Name) and e.func.id in (
+      'tuple', 'list') and len(e.args) == 1 and not e.keywords:
+    e = e.args[0]
+  if not (isinstance(e, (ast.ListComp, ast.GeneratorExp, ast.DictComp)) and
+          len(e.generators) == 1 and not e.generators[0].ifs):
+    return None
+  gen = e.generators[0]
+  src, how = gen.iter, 'elements'
+  if isinstance(e, ast.DictComp):
+    if not (isinstance(src, ast.Call) and isinstance(
+        src.func, ast.Attribute) and src.func.attr == 'items' and
+            not src.args and isinstance(gen.target, ast.Tuple) and len(
+                gen.target.elts) == 2 and all(
+                    isinstance(x, ast.Name) for x in gen.target.elts)):
+      return None
+    if unparse(e.key) != gen.target.elts[0].id:
+      return None
+    var, elt, src, how = gen.target.elts[1].id, e.value, src.func.value, 'items'
+  else:
+    if not isinstance(gen.target, ast.Name):
+      return None
+    var, elt = gen.target.id, e.elt
+  if not elem_ok(elt, var):
+    return None
+  return src, at, how
 
 
 def _mapped_rebinds(f, wrapper_name: str):
@@ -115,15 +151,35 @@ def run(ctx: Ctx, rs: RuleSet, tier: str):
           # a zero-argument call of an iteration variable: an element of a
           # collection of callables (the factories) is invoked
           sites.append((f, c))
-  for f, c in sites:
-    ok = f.qualname in ALLOWED_INVOKERS
-    rs.check(ok, rule, f'{f.qualname}:`{unparse(c)}`',
-             ALLOWED_INVOKERS.get(f.qualname, '') if ok else
-             f'{f.qualname} invokes an argument factory; factories may only '
-             'run when the built partial is called, never while building',
-             ctx.loc(f, c))
-  # _invoke_arg_factories / _arg_factory_value referenced only deferred
+  # A site is per-call code when it is reachable (calls, nested functions,
+  # function references) from one of the per-call entry points and not from
+  # the build-time ones.  _invoke_arg_factories is per-call because it is only
+  # ever referenced deferred (WMC.deferred-expansion below re-verifies that).
   inv_q = f'{P}._invoke_arg_factories'
+  build_roots = [q for q, f_ in p.funcs.items() if f_.name == '__build__'] + [
+      f'{P}._build_partial', f'{P}._promote_arg_factory',
+      'fiddle._src.building.build', 'fiddle._src.building.call_buildable']
+  build_roots = [q for q in build_roots if q in p.funcs]
+  build_time = ctx.cg.reachable(build_roots, stop={inv_q})
+  build_time.pop(inv_q, None)
+  percall_roots = [ctx.func(f'{AF}._InvokeArgFactoryWrapper.__call__').qualname,
+                   ctx.func(inv_q).qualname]
+  if f'{AF}.supply_defaults.wrapper' in p.funcs:
+    percall_roots.append(f'{AF}.supply_defaults.wrapper')
+  per_call = ctx.cg.reachable(percall_roots, kinds=('exact', 'nested', 'ref'))
+  for f, c in sites:
+    in_build = f.qualname in build_time
+    ok = not in_build and f.qualname in per_call
+    rs.check(ok, rule, f'{f.qualname}:`{unparse(c)}`',
+             ALLOWED_INVOKERS.get(f.qualname, 'reached only from ' + ' / '.join(
+                 ctx.cg.path_to(per_call, f.qualname)[:1])) if ok else
+             f'{f.qualname} invokes an argument factory' + (
+                 ' and is reachable while building: ' + ' -> '.join(
+                     ctx.cg.path_to(build_time, f.qualname)) if in_build else
+                 ' but is not reached from the per-call entry points') +
+             '; factories may only run when the built partial is called, '
+             'never while building', ctx.loc(f, c))
+  # _invoke_arg_factories / _arg_factory_value referenced only deferred
   refs = []
   for f in ctx.mod(P).all_funcs:
     if f.qualname.startswith(inv_q):
@@ -164,13 +220,30 @@ def run(ctx: Ctx, rs: RuleSet, tier: str):
              'outermost layer is the value-bound functools.partial', 5)
   bp = ctx.func(f'{P}._build_partial')
   g = ctx.cfg(bp)
-  # predicate helper: is_arg_factory(value) == isinstance(value, _BuiltArgFactory)
-  helper = bp.nested.get('is_arg_factory')
-  helper_ok = False
-  if helper is not None:
-    rets = [r for r in walk_function(helper.node) if isinstance(r, ast.Return)]
-    helper_ok = len(rets) == 1 and unparse(rets[0].value) == (
-        f'isinstance({helper.params[0]}, _BuiltArgFactory)')
+  # predicate helpers: any function (nested, module-level or lambda) whose
+  # result is isinstance(<its parameter>, _BuiltArgFactory)
+  def is_predicate_fn(h) -> bool:
+    if h is None:
+      return False
+    if h.is_lambda:
+      body = h.node.body
+    else:
+      rets = [r for r in walk_function(h.node) if isinstance(r, ast.Return)]
+      if len(rets) != 1:
+        return False
+      body = rets[0].value
+    return bool(h.params) and body is not None and unparse(body) == (
+        f'isinstance({h.params[0]}, _BuiltArgFactory)')
+
+  def predicate_ref(e) -> bool:
+    """e denotes a predicate helper (by name, or a lambda written in place)."""
+    if isinstance(e, ast.Lambda):
+      return len(e.args.args) == 1 and unparse(e.body) == (
+          f'isinstance({e.args.args[0].arg}, _BuiltArgFactory)')
+    if isinstance(e, ast.Name) and e.id in bp.nested:
+      return is_predicate_fn(bp.nested[e.id])
+    q = ctx.p.resolve(e, bp)
+    return q is not None and is_predicate_fn(ctx.p.funcs.get(q))
 
   def predicate(cond):
     """-> (positive?, operand text) for P(x) / not P(x)."""
@@ -179,7 +252,7 @@ def run(ctx: Ctx, rs: RuleSet, tier: str):
       pos = False
       cond = cond.operand
     if isinstance(cond, ast.Call):
-      if unparse(cond.func) == 'is_arg_factory' and helper_ok:
+      if predicate_ref(cond.func) and len(cond.args) == 1:
         return pos, unparse(cond.args[0])
       if unparse(cond.func) == 'isinstance' and unparse(
           cond.args[1]) == '_BuiltArgFactory':
@@ -281,8 +354,11 @@ def run(ctx: Ctx, rs: RuleSet, tier: str):
             unparse(c.keywords[0].value) == dstar)
 
   for n in walk_function(bp.node):
-    if isinstance(n, ast.For) and unparse(n.iter) == (
-        f'itertools.groupby({args_p}, is_arg_factory)') and helper_ok and (
+    if isinstance(n, ast.For) and isinstance(n.iter, ast.Call) and unparse(
+        n.iter.func) == 'itertools.groupby' and len(
+            n.iter.args) == 2 and unparse(
+                n.iter.args[0]) == args_p and predicate_ref(
+                    n.iter.args[1]) and (
             isinstance(n.target, ast.Tuple) and len(n.target.elts) == 2):
       V = unparse(n.target.elts[1])
       calls = [c for c in ast.walk(n) if isinstance(c, ast.Call)]
@@ -305,33 +381,63 @@ def run(ctx: Ctx, rs: RuleSet, tier: str):
   rs.declare(rule, 'values without ArgFactory pass through uncopied', 4)
   visit = ctx.func(f'{P}._invoke_arg_factories.visit')
   node = visit.params[0]
-  rets = [r for r in walk_function(visit.node) if isinstance(r, ast.Return)]
-  texts = [unparse(r.value) for r in rets]
-  ok = (f'{node}.factory()' in texts and node in texts and any(
-      isinstance(r.value, ast.IfExp) and unparse(r.value.body) == node and
-      'unflatten' in unparse(r.value.orelse) for r in rets))
+  from fdlstatic import dispatch
+  gv = ctx.cfg(visit)
+
+  def identity_test(e) -> bool:
+    """all(<old is new for (old, new) in zip(...)>), parts possibly in locals."""
+    e = roles.deref(visit, e)
+    if not (isinstance(e, ast.Call) and unparse(e.func) == 'all' and
+            len(e.args) == 1):
+      return False
+    comp = roles.deref(visit, e.args[0])
+    if not (isinstance(comp, (ast.ListComp, ast.GeneratorExp)) and isinstance(
+        comp.elt, ast.Compare) and len(comp.elt.ops) == 1 and isinstance(
+            comp.elt.ops[0], ast.Is) and len(comp.generators) == 1 and
+            not comp.generators[0].ifs and isinstance(
+                comp.generators[0].target, ast.Tuple)):
+      return False
+    tg = [unparse(x) for x in comp.generators[0].target.elts]
+    it = roles.deref(visit, comp.generators[0].iter)
+    return sorted([unparse(comp.elt.left),
+                   unparse(comp.elt.comparators[0])]) == sorted(tg) and (
+                       isinstance(it, ast.Call) and unparse(it.func) == 'zip')
+
+  def v_atoms(is_factory, traversable, unchanged):
+    def ev(t):
+      if isinstance(t, ast.Call) and unparse(t.func) == 'isinstance' and len(
+          t.args) == 2 and unparse(t.args[0]) == node and unparse(
+              t.args[1]) == '_BuiltArgFactory':
+        return is_factory
+      if isinstance(t, ast.Call) and isinstance(
+          t.func, ast.Attribute) and t.func.attr == 'is_traversable' and [
+              unparse(a_) for a_ in t.args] == [node]:
+        return traversable
+      if identity_test(t):
+        return unchanged
+      return None
+    return ev
+
+  def rv(*a_):
+    return sorted({unparse(x) for x in dispatch.returned_under(
+        gv, v_atoms(*a_), visit)})
+
+  fac, leaf = rv(True, None, None), rv(False, False, None)
+  same, changed = rv(False, True, True), rv(False, True, False)
+  texts = {'factory': fac, 'leaf': leaf, 'unchanged container': same,
+           'changed container': changed}
+  ok = (fac == [f'{node}.factory()'] and leaf == [node] and same == [node] and
+        len(changed) == 1 and changed[0].endswith('.unflatten()'))
   rs.check(ok, rule, f'{visit.qualname}:returns', f'returns {texts}',
            ctx.loc(visit, visit.node))
-  ok = False
-  for n in walk_function(visit.node):
-    if isinstance(n, ast.Assign) and isinstance(n.value, ast.Call) and unparse(
-        n.value.func) == 'all':
-      comp = n.value.args[0]
-      if isinstance(comp, (ast.ListComp, ast.GeneratorExp)) and isinstance(
-          comp.elt, ast.Compare) and isinstance(comp.elt.ops[0], ast.Is):
-        tg = [unparse(e) for e in comp.generators[0].target.elts]
-        ok = sorted([unparse(comp.elt.left),
-                     unparse(comp.elt.comparators[0])]) == sorted(tg) and (
-                         'zip(' in unparse(comp.generators[0].iter))
-        cond_var = unparse(n.targets[0])
-        ok = ok and any(isinstance(r.value, ast.IfExp) and
-                        unparse(r.value.test) == cond_var for r in rets)
-  rs.check(ok, rule, f'{visit.qualname}:identity-test',
+  has_test = any(identity_test(e) for e in walk_function(visit.node)
+                 if isinstance(e, ast.Call))
+  rs.check(has_test and same == [node] and node not in changed, rule,
+           f'{visit.qualname}:identity-test',
            'a container is rebuilt only if some child is not identical (is) '
            'to the original child', ctx.loc(visit, visit.node))
   pr = ctx.func(f'{P}._promote_arg_factory')
   g = ctx.cfg(pr)
-  from fdlstatic import dispatch
   argp = pr.params[0]
 
   def atoms(is_factory, contains):
@@ -358,25 +464,49 @@ def run(ctx: Ctx, rs: RuleSet, tier: str):
   rs.check(ok, rule, f'{pr.qualname}',
            'arguments that are factories or contain none are returned as they '
            'are', ctx.loc(pr, pr.node))
-  av = ctx.func(f'{AF}._arg_factory_value')
-  rets = [r for r in walk_function(av.node) if isinstance(r, ast.Return)]
-  ok = len(rets) == 1 and isinstance(rets[0].value, ast.IfExp) and unparse(
-      rets[0].value.orelse) == av.params[0] and unparse(
-          rets[0].value.body) == f'{av.params[0]}.factory()' and unparse(
-              rets[0].value.test) == f'isinstance({av.params[0]}, ArgFactory)'
-  rs.check(ok, rule, f'{av.qualname}',
-           'ArgFactory -> fresh factory() result; anything else unchanged',
-           ctx.loc(av, av.node))
+  # the wrapper evaluates every factory argument at call time: the element
+  # expression `x.factory() if isinstance(x, ArgFactory) else x`, written in
+  # place or as a helper
+  def evaluates(elt, var) -> bool:
+    if isinstance(elt, ast.Call) and len(elt.args) == 1 and not elt.keywords \
+        and unparse(elt.args[0]) == var:
+      h = ctx.p.funcs.get(ctx.p.resolve(elt.func, wc) or '')
+      if h is None or h.is_lambda or not h.params:
+        return False
+      rets_ = [r for r in walk_function(h.node) if isinstance(r, ast.Return)]
+      return len(rets_) == 1 and evaluates_inline(rets_[0].value, h.params[0])
+    return evaluates_inline(elt, var)
+
+  def evaluates_inline(e, var) -> bool:
+    return isinstance(e, ast.IfExp) and unparse(e.orelse) == var and unparse(
+        e.body) == f'{var}.factory()' and unparse(
+            e.test) == f'isinstance({var}, ArgFactory)'
+
   wc = ctx.func(f'{AF}._InvokeArgFactoryWrapper.__call__')
+  gw = ctx.cfg(wc)
   a = wc.node.args
-  rebound = _mapped_rebinds(wc, '_arg_factory_value')
-  rets = [r for r in walk_function(wc.node) if isinstance(r, ast.Return)]
-  ok = (a.vararg is not None and a.kwarg is not None and
-        {a.vararg.arg, a.kwarg.arg} <= rebound and len(rets) == 1 and
-        unparse(rets[0].value) ==
-        f'{wc.params[0]}.func(*{a.vararg.arg}, **{a.kwarg.arg})')
+  ok = False
+  rets = [n for n in gw.nodes() if isinstance(gw.stmt[n], ast.Return)]
+  if len(rets) == 1 and a.vararg is not None and a.kwarg is not None:
+    rv_ = gw.stmt[rets[0]].value
+    if isinstance(rv_, ast.Call) and unparse(rv_.func) == (
+        f'{wc.params[0]}.func') and len(rv_.args) == 1 and isinstance(
+            rv_.args[0], ast.Starred) and len(rv_.keywords) == 1 and (
+                rv_.keywords[0].arg is None):
+      ma = _mapped(gw, rets[0], rv_.args[0].value, evaluates)
+      mk = _mapped(gw, rets[0], rv_.keywords[0].value, evaluates)
+      ok = (ma is not None and mk is not None and ma[2] == 'elements' and
+            mk[2] == 'items' and isinstance(ma[0], ast.Name) and
+            ma[0].id == a.vararg.arg and isinstance(
+                mk[0], ast.Name) and mk[0].id == a.kwarg.arg)
+      if ok:
+        # the sources are the parameters themselves
+        ok = all(r_[1] == 'param' for nm, at in (
+            (a.vararg.arg, ma[1]), (a.kwarg.arg, mk[1]))
+                 for r_ in roles.reaching(gw, at, nm))
   rs.check(ok, rule, f'{wc.qualname}',
-           'every positional and keyword argument is evaluated at call time, '
+           'every positional and keyword argument is evaluated at call time '
+           '(ArgFactory -> fresh factory() result, anything else unchanged), '
            'then the function is called', ctx.loc(wc, wc.node))
 
   # ---- DEFUSE: __build__ methods
@@ -411,14 +541,48 @@ def run(ctx: Ctx, rs: RuleSet, tier: str):
   # arg_factory.partial wraps every argument
   ap = ctx.func(f'{AF}.partial')
   a = ap.node.args
-  rebound = _mapped_rebinds(ap, 'ArgFactory')
-  rets = [r for r in walk_function(ap.node) if isinstance(r, ast.Return)]
-  ok = (a.vararg is not None and a.kwarg is not None and
-        {a.vararg.arg, a.kwarg.arg} <= rebound and len(rets) == 1 and
-        isinstance(rets[0].value, ast.Call) and
-        unparse(rets[0].value.func) == 'functools.partial' and
-        isinstance(rets[0].value.args[0], ast.Call) and
-        unparse(rets[0].value.args[0].func) == '_InvokeArgFactoryWrapper')
+  gp = ctx.cfg(ap)
+
+  def wraps(elt, var) -> bool:
+    return isinstance(elt, ast.Call) and unparse(elt.func).split('.')[-1] == (
+        'ArgFactory') and len(elt.args) == 1 and not elt.keywords and unparse(
+            elt.args[0]) == var
+
+  ok = False
+  rets = [n for n in gp.nodes() if isinstance(gp.stmt[n], ast.Return)]
+  if len(rets) == 1 and a.vararg is not None and a.kwarg is not None:
+    rv_ = gp.stmt[rets[0]].value
+    if (isinstance(rv_, ast.Call) and
+        unparse(rv_.func) == 'functools.partial' and len(rv_.args) == 2 and
+        isinstance(rv_.args[0], ast.Call) and
+        unparse(rv_.args[0].func) == '_InvokeArgFactoryWrapper' and
+        len(rv_.args[0].args) == 1 and
+        isinstance(rv_.args[1], ast.Starred) and len(rv_.keywords) == 1 and
+        rv_.keywords[0].arg is None):
+      ma = _mapped(gp, rets[0], rv_.args[1].value, wraps)
+      mk = _mapped(gp, rets[0], rv_.keywords[0].value, wraps)
+      ok = ma is not None and mk is not None and ma[2] == 'elements' and (
+          mk[2] == 'items')
+      if ok:
+        # keyword source: the **kwargs parameter itself
+        ok = isinstance(mk[0], ast.Name) and mk[0].id == a.kwarg.arg and all(
+            r_[1] == 'param' for r_ in roles.reaching(gp, mk[1], a.kwarg.arg))
+      if ok:
+        # positional source: everything after the function in *args
+        # (`func, *rest = args`), the function being what the wrapper gets
+        rd = roles.reaching(gp, ma[1], ma[0].id) if isinstance(
+            ma[0], ast.Name) else []
+        fd = roles.reaching(gp, rets[0], unparse(rv_.args[0].args[0]))
+        ok = (len(rd) == 1 and rd[0][1] == 'rest' and len(fd) == 1 and
+              fd[0][1] == 'elt' and fd[0][0] == rd[0][0] and
+              unparse(rd[0][2]) == a.vararg.arg and all(
+                  r_[1] == 'param' for r_ in roles.reaching(
+                      gp, rd[0][0], a.vararg.arg)))
+        if ok:
+          st_ = gp.stmt[rd[0][0]]
+          tg_ = st_.targets[0] if isinstance(st_, ast.Assign) else None
+          ok = isinstance(tg_, (ast.Tuple, ast.List)) and len(
+              tg_.elts) == 2 and isinstance(tg_.elts[1], ast.Starred)
   rs.check(ok, rule, ap.qualname,
            'every argument becomes an ArgFactory bound on '
            '_InvokeArgFactoryWrapper(func) with functools.partial',
